@@ -32,7 +32,6 @@ def parseKind : Sexp → Option PKind
   | .atom "qual" => some .qualOther
   | .atom "unsupported" => some .unsupported
   | .list (.atom "struct" :: fs) => (fs.mapM parseField).map .struct
-  | .list (.atom "structx" :: fs) => (fs.mapM parseField).map .structElsewhere
   | _ => none
 
 def parseParam : Sexp → Option Param
@@ -65,11 +64,6 @@ def parseArg : Sexp → Option Arg
     (fs.mapM (fun (f : Sexp) => match f with
       | Sexp.list [Sexp.atom n, v] => (parseVal v).map (fun v => (n, v))
       | _ => none)).map (Arg.struct false)
-  | .atom "stvnil" => some (.structV true [] [])
-  | .list (.atom "stv" :: .atom fmt :: fs) =>
-    (fs.mapM (fun (f : Sexp) => match f with
-      | Sexp.list [Sexp.atom n, v] => (parseVal v).map (fun v => (n, v))
-      | _ => none)).map (fun vals => Arg.structV false vals fmt.toList)
   | .list (.atom "d" :: es) =>
     (es.mapM (fun e => (pairOf e).map (fun (k, v) => (k, v.toList)))).map Arg.dict
   | _ => none
